@@ -1,6 +1,6 @@
 SPECIFICATION GSpec
 CONSTANTS
-  Tables = {"desc3", "gap3"}
+  Tables = {"gap3"}
   Shapes = {"rw", "w"}
   Xs = {0, 1, 2, 3, 4, 5, 6, 7, 8}
   XW = {2, 6}
